@@ -79,6 +79,7 @@ def _mods():
         if self.is_mutable_collection('cnt'):
           c.value = c.value + 1.0
         h = h + 0.0 * c.value
+        self.sow('sown', 'h', h.sum())
       if child:
         h = h + Leaf()(x)
       if y is not None:
@@ -420,6 +421,27 @@ def _custom(res, flags):
                  for a, b in zip(jax.tree.leaves(out_c), jax.tree.leaves(out_p))):
         V('forward', 'forward value under custom_vjp differs from the original function',
           observed=out_c, expected=out_p)
+      # forward-pass updates of collections outside grad_vars are published (once), and
+      # initialisation through the custom_vjp function creates the same variables
+      res['evals'] += 4
+      try:
+        oc, uc = Outer(True).apply(variables, x, mutable=['cnt', 'sown'])
+        op_, up = Outer(False).apply(variables, x, mutable=['cnt', 'sown'])
+        if jax.tree.structure(uc) != jax.tree.structure(up) or not all(
+            np.array_equal(np.asarray(a), np.asarray(b))
+            for a, b in zip(jax.tree.leaves(uc), jax.tree.leaves(up))):
+          V('mutable-updates', 'mutable-collection updates under custom_vjp differ from the '
+            'original function (must be published exactly once)',
+            observed=jax.tree.map(lambda a: np.asarray(a).tolist(), uc),
+            expected=jax.tree.map(lambda a: np.asarray(a).tolist(), up))
+        vi_c = Outer(True).init(jax.random.key(0), x)
+        vi_p = Outer(False).init(jax.random.key(0), x)
+        if jax.tree.structure(vi_c) != jax.tree.structure(vi_p) or not all(
+            np.array_equal(np.asarray(a), np.asarray(b))
+            for a, b in zip(jax.tree.leaves(vi_c), jax.tree.leaves(vi_p))):
+          V('init', 'init through the custom_vjp function gives different variables')
+      except Exception as e:  # noqa
+        V('mutable-raises', f'{type(e).__name__}: {str(e)[:300]}')
       if n_bwd_plain != 0:
         V('rule-used-without-diff', 'the backward rule ran although nothing was differentiated')
       if calls['bwd'] == 0:
